@@ -107,6 +107,8 @@ Mutants tried in a scratch worktree (VERIF_REPO), quick tier, seed 0, all re-run
   (model A follows fix dff454e: extend/insert_* validate every node before naming any)
   M13 (after the fix) reserved names ignored again in the while condition       VIOLATION (oracle B: raises / unique_lost)
   M14 (after the fix) the pre-scan forgets the initializer keys                 VIOLATION (oracle B: raises)
+  seeded C15-r4m3 (rename_values re-adds through register_initializer, which demands const_value) was missed until
+  the part C generator included pending initializers (const_value None); now VIOLATION (oracle C: raised, state changed)
   an equivalent mutant (renaming only the non-initializers before the pops) is correctly not reported.
 """
 
@@ -915,7 +917,10 @@ def gen_rename(rng) -> dict:
     for g in range(ngraphs):
         names = rng.sample(["a", "b", "c", "d", "e"], rng.choice([1, 2, 3, 4]))
         for nm in names:
-            vals.append({"name": nm, "role": "both" if rng.random() < 0.15 else "init", "graph": g})
+            # "pending": registered in graph.initializers without a tensor yet (const_value None), which
+            # Graph(initializers=...) and graph.initializers[...] accept
+            vals.append({"name": nm, "role": "both" if rng.random() < 0.15 else "init", "graph": g,
+                         "pending": rng.random() < 0.3})
         for _ in range(rng.choice([0, 1, 2])):
             vals.append({"name": rng.choice(["a", "b", "x", "in", None]), "role": "input", "graph": g})
         for _ in range(rng.choice([0, 1, 2])):
@@ -971,7 +976,10 @@ def build_rename(spec: dict):
     vals = []
     for i, v in enumerate(spec["vals"]):
         if v["role"] in ("init", "both"):
-            vals.append(ir.Value(name=v["name"], const_value=ir.Tensor(np.zeros((1,), dtype=np.float32), name=v["name"])))
+            if v.get("pending"):
+                vals.append(ir.Value(name=v["name"], type=ir.TensorType(ir.DataType.FLOAT), shape=ir.Shape([1])))
+            else:
+                vals.append(ir.Value(name=v["name"], const_value=ir.Tensor(np.zeros((1,), dtype=np.float32), name=v["name"])))
         else:
             vals.append(ir.Value(name=f"tmp{i}"))
     graphs = []
@@ -1171,6 +1179,8 @@ def part_c(ck, n: int, corpus: list) -> tuple[list, list]:
         ck.count()
         ck.hist("C_mode", spec.get("mode", "corpus"))
         ck.hist("C_outcome", obs["err"] or "ok")
+        if any(spec["vals"][v].get("pending") for v in spec["vs"] if v < len(spec["vals"])):
+            ck.hist("C_mode", "touches_pending_initializer")
         bad = oracle_rename(spec, obs)
         if bad:
             fails.append((spec, obs, bad))
